@@ -568,6 +568,15 @@ static void h_timer(void *c)
 	int i = ((long)c >= 0x20000 && (long)c < 0x20000 + MAXTM) ? (int)((long)c - 0x20000) : -1;
 	if (i < 0) { logf_("CB bad-cookie timer\n"); finish(NULL); }
 	logf_("CB t%d reg=%d\n", i, iv_timer_registered(T[i].o));
+	{
+		/* "at the moment of invocation the loop's clock is at or past the timer's expiry": the loop's clock is what iv_now yields;
+		 * looked at without forcing a clock reading (when the cached time is not valid a handler that asks gets a fresh one) */
+		struct iv_state *st = iv_get_state();
+		if (st->time_valid && timespec_gt(&T[i].o->expires, &st->time))
+			logf_("EARLY t%d now=%lld expires=%lld\n", i,
+			      (long long)st->time.tv_sec * 1000000000LL + st->time.tv_nsec,
+			      (long long)T[i].o->expires.tv_sec * 1000000000LL + T[i].o->expires.tv_nsec);
+	}
 	react('t', i, 0);
 }
 
